@@ -286,6 +286,48 @@ func BuildCorpus() []*CorpusFile {
 		d := model3d.EncodePLY(smallMesh(n), colorOf)
 		add(fmt.Sprintf("ply_mesh_%d", n), "plymesh", d, tokenFields(d))
 	}
+	// a coloured mesh whose face element carries further properties after the index
+	// list (texture coordinates, flags): accepted by the mesh reader, which must
+	// look at the index list only
+	for _, fm := range []fileformats.PLYFormat{fileformats.PLYFormatASCII, fileformats.PLYFormatBinaryLittle} {
+		h := &fileformats.PLYHeader{Format: fm, Elements: []*fileformats.PLYElement{
+			{Name: "vertex", Count: 4, Properties: []*fileformats.PLYProperty{
+				{Name: "x", ElemType: fileformats.PLYPropertyTypeFloat}, {Name: "y", ElemType: fileformats.PLYPropertyTypeFloat}, {Name: "z", ElemType: fileformats.PLYPropertyTypeFloat},
+				{Name: "red", ElemType: fileformats.PLYPropertyTypeUchar}, {Name: "green", ElemType: fileformats.PLYPropertyTypeUchar}, {Name: "blue", ElemType: fileformats.PLYPropertyTypeUchar}}},
+			{Name: "face", Count: 2, Properties: []*fileformats.PLYProperty{
+				{Name: "vertex_index", LenType: fileformats.PLYPropertyTypeUchar, ElemType: fileformats.PLYPropertyTypeInt},
+				{Name: "flags", ElemType: fileformats.PLYPropertyTypeUchar},
+				{Name: "texcoord", LenType: fileformats.PLYPropertyTypeUchar, ElemType: fileformats.PLYPropertyTypeFloat}}},
+		}}
+		var buf bytes.Buffer
+		w, err := fileformats.NewPLYWriter(&buf, h)
+		if err != nil {
+			panic(err)
+		}
+		f32 := func(v float32) fileformats.PLYValue { return fileformats.PLYValueFloat32{Value: v} }
+		u8 := func(v uint8) fileformats.PLYValue { return fileformats.PLYValueUint8{Value: v} }
+		i32 := func(v int32) fileformats.PLYValue { return fileformats.PLYValueInt32{Value: v} }
+		for i := 0; i < 4; i++ {
+			if err := w.Write([]fileformats.PLYValue{f32(float32(i & 1)), f32(float32(i >> 1)), f32(0.5 * float32(i)), u8(uint8(10 * i)), u8(200), u8(7)}); err != nil {
+				panic(err)
+			}
+		}
+		for i := 0; i < 2; i++ {
+			row := []fileformats.PLYValue{
+				fileformats.PLYValueList{Length: u8(3), Values: []fileformats.PLYValue{i32(0), i32(int32(1 + i)), i32(int32(2 + i))}},
+				u8(uint8(i)),
+				fileformats.PLYValueList{Length: u8(2), Values: []fileformats.PLYValue{f32(0.25), f32(0.75)}}}
+			if err := w.Write(row); err != nil {
+				panic(err)
+			}
+		}
+		d := append([]byte(nil), buf.Bytes()...)
+		fields := tokenFields(d[:asciiEnd(d)])
+		if fm == fileformats.PLYFormatASCII {
+			fields = tokenFields(d)
+		}
+		add(fmt.Sprintf("ply_mesh_faceprops_%d", int(fm)), "plymesh", d, fields)
+	}
 	for _, f := range []fileformats.PLYFormat{fileformats.PLYFormatASCII, fileformats.PLYFormatBinaryLittle, fileformats.PLYFormatBinaryBig} {
 		d, fields := genericPLY(f)
 		hdr := tokenFields(d[:asciiEnd(d)])
